@@ -167,8 +167,19 @@ class Server(object):
         self._check_close_code(reply)
 
     def _encrypt_session(self):
-        if not self.io.encrypt_socket_server(self.context):
+        # A client that asks for TLS and then stays silent must not hold the
+        # session: the handshake is bounded like the wait for a command.
+        timeout = Timeout(self.command_timeout)
+        timeout.start()
+        try:
+            if not self.io.encrypt_socket_server(self.context):
+                return False
+        except Timeout as exc:
+            if exc is not timeout:
+                raise
             return False
+        finally:
+            timeout.cancel()
         self._call_custom_handler('TLSHANDSHAKE')
         self._call_custom_handler('TLSHANDSHAKE2', self.io.socket)
         return True
